@@ -809,7 +809,7 @@ Proof.
          then match decode_payload k2 e with
               | Some v' => if val_meets k2 d v' then v_ok (match d with DSame _ => "same" | DInf _ => "infinity" | _ =>
                           if is_float k1 && is_int k2 then "trunc-clamp" else "exact" end)
-                           else if kfa k1 v k2 v' then v_kf "C12-float-r64-approx" else v_bad "wrong-value" (demand_sx d)
+                           else if kfa k1 v k2 v' then v_kf "float-r64-approx" else v_bad "wrong-value" (demand_sx d)
               | None => v_bad "unreadable-value" (demand_sx d)
               end
          else v_bad "wrong-kind" (demand_sx d)
